@@ -114,6 +114,17 @@ def check(ctx):
     check_transposed_tables(ctx)
     check_every_pair_recorded(ctx)
     check_all_genes_corrected(ctx)
+    # the gene-major tables are the transpose of the pair-major ones: the
+    # on-disk transposition leaves no row out (sa/rules/tiling.py)
+    from ..rules.tiling import check_batch_search
+    n_bs = 0
+    for fi_ in ctx.db.iter_functions():
+        if fi_.module.short in ('utils.csc_to_csr',
+                                'utils.csc_to_csr_parallel'):
+            n_bs += check_batch_search(ctx, fi_)
+    if n_bs < 1:
+        raise AnalysisError('the batch search of the on-disk transposition '
+                            'was not recognised')
     # the marker files can be written for every outcome of the criteria --
     # no marker in one direction, no significant gene at all, a chunk of
     # a single pair (rules of C05 / sa/rules/idioms.py)
